@@ -10,6 +10,9 @@ CONSTANTS
   FixZeroHashState = TRUE
   FixLegacyZeroWriteLog = FALSE
   LubZeroShortcut = FALSE
+  NVar = 2
+  Scenarios = {"base"}
+  Leave = {}
   WithPreConfirmed = FALSE
 INIT Init
 NEXT Next
